@@ -185,3 +185,4 @@ fn worker_main<T, F: Fn(&std::fs::DirEntry) -> Result<FilterResult<T>, String>>(
 
     Ok(())
 }
+#[cfg(rjrssync_verif)] pub(crate) mod verif_hooks { include!(concat!(env!("RJRSSYNC_VERIF_HARNESS"), "/hooks_parallel_walk_dir.rs")); }
